@@ -209,6 +209,8 @@ def LARGE(arr, n):
     n = utils.parse_number(n)
     if isinstance(n, error.XLError):
         return n
+    if isinstance(n, float):
+        n = int(n)  # a computed rank (COUNT(xs)/2) is a float
     if n < 1 or n > len(arr):
         return error.NUM
     return sorted(utils.inumbers(arr, try_parse=True, text_is_zero=True))[-n]
